@@ -126,6 +126,10 @@ def gen_case(prop: str, ctx: Ctx, rng: random.Random) -> dict:
             lo, hi = rng.choice([(0, 60 * NS), (-60 * NS, 60 * NS), (-10 * MIN, -MIN), (10 * NS, 20 * NS),
                                  (-5 * NS, 0), (0, NS), (-20 * MIN, 20 * MIN)])
             e = ['jitter', base, lo, hi, None]
+        if rng.random() < 0.12:
+            # an offset over a jitter: the firing window is the jitter window shifted by the offset
+            lo, hi = rng.choice([(0, 60 * NS), (10 * NS, 20 * NS), (0, 10 * MIN)])
+            e = ['offset', ['jitter', base, lo, hi, None], rng.choice([-30 * NS, 30 * NS, -5 * NS, -5 * MIN, HOUR]), None]
         e = sanitize(e, rng)
         return {'expr': e, 'chain': [ref, 25], 'fracs': [rng.random() for _ in range(16)] + [0.0, 1.0]}
     if prop == 'C16':
@@ -323,6 +327,10 @@ def oracle(prop: str, zone: str, ref: Ref, c: dict) -> tuple[list, bool]:
     if prop == 'C14':
         k = e[0]
         inner = e[1]
+        if k == 'offset' and inner[0] == 'jitter' and is_base(inner[1]):
+            # offset(jitter(base, lo, hi), off): a jitter window [lo + off, hi + off] around the occurrences of base
+            e = ['jitter', inner[1], inner[2] + e[2], inner[3] + e[2], None]
+            k, inner = 'jitter', e[1]
         firings = [v for _, v in oks]
         if len(firings) < 2 or not is_base(inner):
             return bad, False
@@ -622,7 +630,8 @@ def match_known(prop: str, v: dict, known: list):
                 return f['id']
         if f.get('class') == 'F6' and prop == 'C14':
             e = v['case']['expr']
-            if e[0] == 'jitter' and e[2] < 0 and 'firings attributed' in v['what']:
+            eff_low = e[2] if e[0] == 'jitter' else (e[1][2] + e[2] if e[0] == 'offset' and e[1][0] == 'jitter' else 0)
+            if eff_low < 0 and 'firings attributed' in v['what']:
                 return f['id']
     return None
 
